@@ -110,9 +110,9 @@ class Run:
         lock = open(os.path.join(COQ_ROOT, ".build.lock"), "w")
         fcntl.flock(lock, fcntl.LOCK_EX)
         try:
-            if not os.path.exists(os.path.join(COQ_ROOT, "Makefile")):
-                subprocess.run(["coq_makefile", "-f", "_CoqProject", "-o", "Makefile"], cwd=COQ_ROOT, check=True,
-                               capture_output=True)
+            files = sorted(os.path.relpath(os.path.join(d, f), COQ_ROOT) for d, _, fs in os.walk(COQ_STATIC) for f in fs if f.endswith(".v"))
+            subprocess.run(["coq_makefile", "-f", "_CoqProject", "-o", "Makefile"] + files, cwd=COQ_ROOT, check=True,
+                           capture_output=True)
             p = subprocess.run(["timeout", str(timeout), "make", "-j%d" % NCPU], cwd=COQ_ROOT,
                                capture_output=True, text=True)
             if p.returncode != 0:
